@@ -1,7 +1,7 @@
 SPECIFICATION Spec
 CONSTANTS
-  MaxOps = 1
+  MaxOps = 2
   OpSet = "all"
-  Atoms = "simple"
+  Atoms = "rich"
   Emit = TRUE
 INVARIANTS RoundTrip ParenOnlyAdds
